@@ -59,8 +59,9 @@ inductive Pc
   | isp                                    -- is_poisoned(): `poison.failed.load`
   deriving DecidableEq, Repr
 
-/-- caller / environment choices: which API is called; whether a park ends by cancellation -/
-inductive Env | read | tryRead | write | tryWrite | dropR | dropW (panicking : Bool) | isPoisoned | go | abort
+/-- caller / environment choices: which API is called; whether a park ends by cancellation (`abort`), or by a cancellation
+    while the coroutine has cancellation disabled (`abortIgnore`) -/
+inductive Env | read | tryRead | write | tryWrite | dropR | dropW (panicking : Bool) | isPoisoned | go | abort | abortIgnore
   deriving DecidableEq, Repr
 
 structure Sh where
@@ -75,8 +76,14 @@ structure Sh where
   lostR : Nat           -- read-guard drops whose `rlock.lock()` was cancelled (the count they held is never given back)
   res : Nat → Nat       -- last API result per actor: 0 WouldBlock / done, 1 Ok(guard), 2 Poisoned(guard), 3 cancel panic
 
-def menv : Env → Mutex.Env
+/-- environment of a step of the rlock component: `Mutex::lock` ignores a cancel while cancellation is disabled (`b_ignore`) -/
+def menvR : Env → Mutex.Env
   | .abort => .abort
+  | .abortIgnore => .abortIgnore
+  | _ => .go
+/-- environment of a step of the gate component: `RwLock::lock` has no `b_ignore` loop, every cancel takes the abort path -/
+def menvG : Env → Mutex.Env
+  | .abort | .abortIgnore => .abort
   | _ => .go
 
 def b2n (b : Bool) : Nat := if b then 1 else 0
@@ -122,7 +129,7 @@ def tstepG (pin : Bool) (sh : Sh) (me : Nat) : Pc → Env → Option (Sh × Pc)
   | .wpo, _ => some ({ sh with poison := true }, .gul .dropW (.p0fadd .fin))
   -- rlock.lock() / rlock.try_lock(): the Mutex component
   | .rlk o p, e =>
-      match Mutex.tstep sh.rl me p (menv e) with
+      match Mutex.tstep sh.rl me p (menvR e) with
       | none => none
       | some (rl', p') =>
         if p' = .held then some ({ sh with rl := rl' }, .rlp o)
@@ -156,7 +163,7 @@ def tstepG (pin : Bool) (sh : Sh) (me : Nat) : Pc → Env → Option (Sh × Pc)
   | .glk o p, e =>
       if pin && (p == .m0cas || p == .t0cas) && sh.g.cnt != 1 then some (sh, .glp o)    -- pinned: lost CAS -> poison.get()
       else
-      match Mutex.tstep sh.g me p (menv e) with
+      match Mutex.tstep sh.g me p (menvG e) with
       | none => none
       | some (g', p') =>
         if p' = .held then some (acquired pin { sh with g := g' } o)
@@ -182,7 +189,7 @@ def tstepG (pin : Bool) (sh : Sh) (me : Nat) : Pc → Env → Option (Sh × Pc)
       else some ({ sh with WG := sh.WG + 1, res := upd sh.res me v }, .idle)
   -- gate unlock()
   | .gul o p, e =>
-      match Mutex.tstep sh.g me p (menv e) with
+      match Mutex.tstep sh.g me p (menvG e) with
       | none => none
       | some (g', p') =>
         if p' = .idle then
@@ -191,7 +198,7 @@ def tstepG (pin : Bool) (sh : Sh) (me : Nat) : Pc → Env → Option (Sh × Pc)
         else some ({ sh with g := g' }, .gul o p')
   -- rlock unlock, then the call returns `v`; a guard is handed out iff v = 1 (Ok) or v = 2 (inside Poisoned)
   | .rul o v p, e =>
-      match Mutex.tstep sh.rl me p (menv e) with
+      match Mutex.tstep sh.rl me p (menvR e) with
       | none => none
       | some (rl', p') =>
         if p' = .idle then
